@@ -457,6 +457,7 @@ class Chain(BaseChain):
         """
         state = {}
         state['chain_id'] = self.chain_id
+        state['beta'] = self.beta
         state['proposal_dist'] = self.proposal_dist.state
         state['iteration'] = self.iteration
         state['current_position'] = self.current_position
@@ -483,6 +484,9 @@ class Chain(BaseChain):
             Dictionary of state values.
         """
         self.chain_id = state['chain_id']
+        # the temperature may have been changed by an adaptive annealer
+        if 'beta' in state:
+            self.beta = state['beta']
         # set the chain position
         self.clear()
         self._iteration = state['iteration']
